@@ -221,6 +221,8 @@ static void exec_c11(const void *k, res_t *r, const runcfg_t *cfg) {
     /* floating conversions are compared byte for byte like everything else (positive NaN only: the sign of a NaN is implementation-defined) */
     /* %lc with a null wide character: C defines it through %ls of {0, 0} (prints nothing), glibc writes a NUL byte: no reference */
     for (i = 0; i < c->nd; i++) if (c->d[i].conv == 'C' && c->d[i].vsel % 6 == 5) { res_label(r, "lc-NUL(no agreed reference)"); return; }
+    /* "%Ld": undefined in ISO C (glibc reads it as ll), the library rejects it: nothing to compare */
+    for (i = 0; i < c->nd; i++) if (c->d[i].len == LEN_BIGL && strchr("diuxXo", c->d[i].conv)) { res_label(r, "L-with-integer(not ISO C)"); return; }
     cls = c11_class(c);
     ename = e->sink == SK_BUF ? "buffer" : "stream";
     fits = e->sink != SK_BUF || (size_t)FX.ref_len < FX.dmax;
